@@ -153,9 +153,14 @@ theorem scale_is_affine (d : ℕ) (m : K) :
   scalePt_affOn d m
 
 /-- The model's rotation of 3-D points about coordinate axis `axis` is the linear map with the
-    rotation matrix `rotMat axis c s`, for ANY numbers `c`, `s`.  (A fact about the point map `rotatePt`; the library
-    accepts `axis ∈ {0, 1, 2}` only – for other values `operations.rotate` raises, the driver answers `ERR`, and the model
-    formulas fall into the y-axis case: the object-level theorems below carry `axis ≤ 2`.) -/
+    rotation matrix `rotMat axis c s`, for ANY numbers `c`, `s`.  (A fact about the point map `rotatePt`; for 3-D shapes
+    the library accepts `axis ∈ {0, 1, 2}` only – for other values `operations.rotate` raises, the driver answers `ERR`,
+    and the model formulas fall into the y-axis case: the object-level theorems below carry `axis ≤ 2`.  For 2-D shapes
+    and containers of 2-D shapes the code IGNORES `axis` (`axis = 2 if obj.dimension == 2 else int(axis)`), so does
+    `rotatePt` (`rotate_is_affine_2d`), and the driver accepts any `axis` there – the hypothesis `axis ≤ 2` of the
+    object-level theorems is then stricter than the code.  For points with MORE than 3 coordinates `rotate_x` / `rotate_y`
+    of the code write zeros into the coordinates ≥ 3 while `rotatePt` keeps them: outside the model, the theorems have
+    `d = 2 ∨ d = 3`, the driver answers `OUT`.) -/
 theorem rotate_is_affine_3d (axis : ℕ) (c s : K) : AffOn 3 (rotatePt axis c s) (rotMat axis c s) (fun _ => 0) :=
   rotatePt_affOn3 axis c s
 
